@@ -5,7 +5,7 @@
 (* in every state.  Also emits the histories as behaviours to replay into the real code. *)
 EXTENDS Naturals, Sequences, FiniteSets, TLC, Json
 
-CONSTANTS NF, MaxLen, Kinds, MaxHunks, MaxBody, Preamble, Buf, Fixes, ReplayLen
+CONSTANTS NF, MaxLen, Kinds, MaxHunks, MaxBody, Preamble, MaxConf, Buf, Fixes, ReplayLen
 
 VARIABLES hist, gs, s
 
@@ -34,6 +34,7 @@ NeverRevised == [][O!IsPrefixOf(s.w, s'.w)]_vars
 \* C10: a "diff" line makes delta do what end of input would have done, then start afresh:
 \* by induction Run(A \o B) = Run(A) \o Run(B) for every history A and complete sections B.
 Boundary ==
+  \/ gs.conf # ""        \* (inside an unterminated conflict region the input is not a sequence of complete sections)
   \/ \A kd \in Kinds, f \in 1..NF, g \in 1..NF :
      ((kd \in {"rename", "renmod", "copy"}) <=> (f # g)) =>
        LET d == [c |-> "diff", f |-> f, g |-> g, kd |-> kd]
